@@ -180,6 +180,11 @@ Fixpoint rt_lt (a b : value) {struct a} : res bool :=
       zip_allM (fun x y => rt_lt x y) xs ys
   | (VTuple _ | VList _), (VNil | VBlob _ | VVariant _ _ | VDict _ | VSet _) => Unsup   (* exotic mix *)
   | (VNil | VBlob _ | VVariant _ _ | VDict _ | VSet _), (VTuple _ | VList _) => Unsup
+  (* ill-typed: a table and a non-table; the table's handler runs and fails on b[x] unless #a = 0 *)
+  | VTuple xs, _ => match xs with [] => Ok false | _ => Err end
+  | VList xs, _ => match xs with [] => Ok true | _ => Err end
+  | VStr s, VTuple _ => match s with EmptyString => Ok false | _ => Err end   (* #"" = 0 *)
+  | VStr s, VList _ => match s with EmptyString => Ok true | _ => Err end
   | _, _ => Err                                                 (* attempt to compare ... *)
   end.
 
@@ -196,6 +201,9 @@ Fixpoint rt_le (a b : value) {struct a} : res bool :=
   | VList xs, VList ys | VList xs, VTuple ys => zip_allM (fun x y => rt_le x y) xs ys
   | (VTuple _ | VList _), (VNil | VBlob _ | VVariant _ _ | VDict _ | VSet _) => Unsup
   | (VNil | VBlob _ | VVariant _ _ | VDict _ | VSet _), (VTuple _ | VList _) => Unsup
+  | VTuple xs, _ => match xs with [] => Ok true | _ => Err end
+  | VList xs, _ => match xs with [] => Ok true | _ => Err end
+  | VStr s, (VTuple _ | VList _) => match s with EmptyString => Ok true | _ => Err end
   | _, _ => Err
   end.
 
